@@ -88,7 +88,8 @@ fn go<T: Scalar, const D: usize>(h: &C17, out: &mut Outcome<T>) {
         // (the Gamma coordinate is the same as in the calls below: a value cached per coordinate instead of per
         // (dod, coordinate) is then handed from one sampler to the other)
         let lam = 2 * g.ne() - 2;
-        let px: Vec<T> = (0..pdim).map(|k| if k == lam && k < x.len() { x[k] } else { T::rat(31 + (k * 7919 % 89) as i64, 181) }).collect();
+        let plam = 2 * pg.ne() - 2;
+        let px: Vec<T> = (0..pdim).map(|k| if k == plam { x[lam] } else { T::rat(31 + (k * 7919 % 89) as i64, 181) }).collect();
         let obs = Obs::<T> { events: RefCell::new(vec![]) };
         let _ = ps.generate_sample_from_x_space_point(&px, ped(), &plain, &obs);
         let mut prng = HarnessRng::<T> { k: 0, concrete: true, _p: std::marker::PhantomData };
